@@ -22,6 +22,11 @@ thread_local! {
     static YIELDS: Cell<u64> = const { Cell::new(0) };
 }
 
+/// First access of this module's thread-local state that has a destructor (see sched::ExitProbe).
+pub fn touch_tls() {
+    let _ = HOOK.try_with(|_| ());
+}
+
 /// Install (or remove) the scheduler hook for the calling OS thread.
 pub fn set_hook(h: Option<(Arc<dyn Yielder>, usize)>) {
     HOOK.with(|c| *c.borrow_mut() = h);
